@@ -733,7 +733,9 @@ class EvolvableAlgorithm(ABC, metaclass=RegistryMeta):
                 optimizer_kwargs=opt_config.optimizer_kwargs,
                 multiagent=opt_config.multiagent,
             )
-            opt.load_state_dict(orig_optimizer.state_dict())
+            # NOTE: Optimizer.load_state_dict() keeps references to the tensors it is given,
+            # so the clone must get its own copy of the moments and step counters
+            opt.load_state_dict(copy.deepcopy(orig_optimizer.state_dict()))
             setattr(clone, opt_config.name, opt)
 
         # Prepare with accelerator / compiler if necessary
